@@ -1,7 +1,7 @@
 (* Extraction of the signature model (C01, C02, C05): ExtrOcamlBasic only, Z stays inductive. *)
 From Coq Require Import ZArith List.
-Require Import PV.Lib.Bytes PV.Model.Wire PV.Model.HashData PV.Spec.Rfc4880_sig PV.Model.SigEncoding PV.Spec.Der PV.Model.SigCompose.
+Require Import PV.Lib.Bytes PV.Model.Wire PV.Model.HashData PV.Spec.Rfc4880_sig PV.Model.SigEncoding PV.Spec.Der PV.Model.SigCompose PV.Model.SubArea.
 Require Extraction.
 Require Import ExtrOcamlBasic.
 Extraction "../ocaml/gen/ex_sig.ml" hashdata rfc_hashdata canon rfc_canon sig_body_parse subpackets_parse fields_of verify_pair
-  trailer hcontext dsa_from_signer der_seq2 eddsa_from_signer eddsa_sig sign_body area_emit Z.add Z.mul.
+  trailer hcontext dsa_from_signer der_seq2 eddsa_from_signer eddsa_sig sign_body area_emit sa_parse sa_run sa_emit Z.add Z.mul.
